@@ -3,6 +3,7 @@
    the same format as harness/cmd/lalprobe/c03.go. *)
 open Conv
 module G = GroupAdmission
+module S = GroupRtspShell
 
 let int_tok s = (* n5 = -5 *)
   if String.length s > 0 && s.[0] = 'n' then - (int_of_string (String.sub s 1 (String.length s - 1)))
@@ -113,25 +114,41 @@ let parse_cfg (s : string) : G.config * G.fixes =
   let fx = if get "tree" "fixed" = "pinned" then G.pinned_tree else G.fixed_tree in
   (cf, fx)
 
+(* ap2.S.N.M[.deny] / ds2.S.N.M[.deny]: a further ANNOUNCE / DESCRIBE on the command connection of session N *)
+let parse_cevent (op : string) : S.cevent option =
+  let f = Array.of_list (String.split_on_char '.' op) in
+  let deny = Array.length f > 4 && f.(4) = "deny" in
+  match f.(0) with
+  | "ap2" -> Some (S.CAnnounce (n_of f.(1), n_of f.(2), n_of f.(3), deny))
+  | "ds2" -> Some (S.CDescribe (n_of f.(1), n_of f.(2), n_of f.(3), deny))
+  | _ -> (match parse_event op with Some e -> Some (S.CE e) | None -> None)
+
 let run_case cfg ops =
   let (cf, fx) = parse_cfg cfg in
-  let st = ref G.init_state in
+  (* the RTSP shell follows the repaired tree unless the pinned one (or shell=old) is asked for *)
+  let f32 = not (fx == G.pinned_tree) && not (String.length cfg >= 9 &&
+              (let rec has i = i + 9 <= String.length cfg && (String.sub cfg i 9 = "shell=old" || has (i + 1)) in has 0)) in
+  let st = ref S.init_cstate in
   let outs = Stdlib.List.map (fun op ->
-      match parse_event op with
+      match parse_cevent op with
       | None -> "unknown-op"
-      | Some e ->
+      | Some ce ->
         (* attempt index 0 = the latest attempt of that stream *)
         let latest s i = if int_of_n i <> 0 then i else
-            (match G.lookup s !st.G.st_cnt with Some c -> c | None -> i) in
-        let e = match e with
-          | G.EPullSucc (s, i) -> G.EPullSucc (s, latest s i)
-          | G.EPullFail (s, i) -> G.EPullFail (s, latest s i)
-          | G.EPullDone (s, i) -> G.EPullDone (s, latest s i)
-          | _ -> e in
-        let ((st1, r), ns) = G.step fx cf !st e in
+            (match G.lookup s !st.S.cs_base.G.st_cnt with Some c -> c | None -> i) in
+        let ce = match ce with
+          | S.CE (G.EPullSucc (s, i)) -> S.CE (G.EPullSucc (s, latest s i))
+          | S.CE (G.EPullFail (s, i)) -> S.CE (G.EPullFail (s, latest s i))
+          | S.CE (G.EPullDone (s, i)) -> S.CE (G.EPullDone (s, latest s i))
+          | _ -> ce in
+        let shown = match ce with
+          | S.CE e -> e
+          | S.CAnnounce (s, _, n, d) -> G.ERtspPub (s, n, d)
+          | S.CDescribe (s, _, n, d) -> G.ERtspSub (s, n, d) in
+        let ((st1, r), ns) = S.cstep f32 fx cf !st ce in
         st := st1;
         let ev = if ns = [] then "-" else String.concat "+" (Stdlib.List.map show_notif ns) in
-        show_result e r ^ "/" ^ show_view st1 ^ "/" ^ ev)
+        show_result shown r ^ "/" ^ show_view st1.S.cs_base ^ "/" ^ ev)
       (String.split_on_char ',' ops) in
   String.concat ";" outs
 
